@@ -872,10 +872,13 @@ def tlc_predict(run, table, label):
 
 def vary_of(run, res, label):
     run.add_tlc(res, label)
-    vary = {"plain": {}, "alike": {}}
+    vary = {"plain": {}, "alike": {}, "near": {}}
     for v in res.records("VARY"):
-        # a witness whose collection holds two members that render alike says nothing about plain collections
-        cls = "alike" if sum(1 for e in v["ord"] if ALIKE_BASE < e < 100) >= 2 else "plain"
+        # a witness whose collection holds two members that render alike (two near-duplicate strings) says nothing
+        # about plain collections
+        folds = [NEAR_BASE + 1 + 2 * ((e - NEAR_BASE - 1) // 2) for e in v["ord"] if NEAR_BASE < e <= ALIKE_BASE]
+        cls = ("alike" if sum(1 for e in v["ord"] if ALIKE_BASE < e < 100) >= 2
+               else "near" if len(folds) != len(set(folds)) else "plain")
         if v["prog"] not in vary[cls] or len(v["ord"]) < len(vary[cls][v["prog"]]["ord"]):
             vary[cls][v["prog"]] = v
     return vary
@@ -915,8 +918,9 @@ def model_elems(b, t):
     return b.elems
 
 
-def judge(run, obs, owner):
-    """Apply both oracles (identical outcomes; sorted enumeration)."""
+def judge(run, obs, owner, extra=()):
+    """Apply both oracles (identical outcomes; sorted enumeration).  extra: trace lines of the call channel
+    [(line, ...)], validated in the same TLC run; the rejected ones are returned with the model's expectation."""
     varying = {}          # tid -> [(bid, legacy, distinct)]
     trace_lines = []
     trace_meta = []
@@ -936,9 +940,14 @@ def judge(run, obs, owner):
                     continue
                 trace_lines.append({"prog": t.prog, "elems": model_elems(b, t), "obs": to_ints(b, t, o), "n": len(where)})
                 trace_meta.append((tid, b, legacy, o, where))
+    n_own = len(trace_lines)
+    trace_lines += [ex[0] for ex in extra]
     bad = validate_traces(run, trace_lines) if trace_lines else {}
+    bad_extra = [(extra[k - n_own], bd) for k, bd in sorted(bad.items()) if k >= n_own]
     unsorted = {}
     for k, bd in sorted(bad.items()):
+        if k >= n_own:
+            continue
         tid, b, legacy, o, where = trace_meta[k]
         unsorted.setdefault(tid, []).append((b, legacy, o, where, bd, trace_lines[k]))
     for tid in sorted(set(varying) | set(unsorted)):
@@ -964,7 +973,7 @@ def judge(run, obs, owner):
             case["runs"].append({"legacy": legacy, "order": where[0][0], "seed": where[0][1]})
         case["scripts"] = {on: b.solo_of(t).script(o) for on, o in b.orders}
         run.violation(tid, f"{cat}: `{t.body.splitlines()[-1]}` " + "; ".join(parts), case)
-    return varying, unsorted, len(trace_lines)
+    return varying, unsorted, len(trace_lines), bad_extra
 
 
 def _short(o):
@@ -977,6 +986,221 @@ def _short(o):
     return repr(s)
 
 
+# ---------------------------------------------------------------- the call channel (harness/c12_calls.py)
+CALL_POOLS = ("str", "summix", "decmag")
+RNG_SEEDS = (1, 7, 11, 4711, 233279)
+RNG_DRAWS = [(0, 1000), (0, 0), (5, 50), (0, 0), (0, 9000), (0, 7)]          # (0, 0): the decimal form
+RNG_KINDS = {"int1": "Random->random(1000)", "int2": "Random->random(5, 50)", "dec": "Random->random()"}
+
+
+def _draw_src(d):
+    return "Random->random()" if d == (0, 0) else (f"Random->random({d[1]})" if d[0] == 0 else f"Random->random({d[0]}, {d[1]})")
+
+
+def directed_calls(pool):
+    """[(call id, source, model program or None, how to read the observation)]"""
+    if pool == "summix":
+        return [
+            ("d:sum-set", "sum(S)", "native.set+firstbad", "sumtype"),
+            ("d:sum-list-of-set", "sum(list(S))", "aslist.set+firstbad", "sumtype"),
+            ("d:sum-compr", "sum([x for x in S])", None, None),
+            ("d:sum-spread", "sum([...S])", None, None),
+            ("d:sum-keys", "sum([k for k in keys M])", None, None),
+            ("d:sum-ignore", "sum(list(S), ignore = [NULL, 'fig'])", None, None),
+            ("d:prod", "List->prod(list(S))", None, None),
+            ("d:mean", "Stat->mean(list(S))", None, None),
+            ("d:reduce-set", "List->reduce(S, fn(a, b) string(a) + '/' + string(b))", None, None),
+            ("d:join", "String->join([string(x) for x in S], '/')", None, None),
+            ("d:min-max", "[min(S), max(S)]", None, None),
+            ("d:compare-all", "[compare(a, b) for a in S for b in S]", None, None),
+        ]
+    if pool == "decmag":
+        return [
+            ("d:sum-set", "sum(S)", None, None),
+            ("d:sum-list-of-set", "sum(list(S))", None, None),
+            ("d:sum-compr", "sum([x for x in S])", None, None),
+            ("d:sum-spread", "sum([...S])", None, None),
+            ("d:sum-map-values", "sum(list(M))", None, None),
+            ("d:sum-compr-values", "sum([v for v in values M])", None, None),
+            ("d:reduce-add", "List->reduce(S, fn(a, b) a + b)", None, None),
+            ("d:reduce-list-sub", "List->reduce(list(S), fn(a, b) b - a)", None, None),
+            ("d:prod", "List->prod(list(S))", None, None),
+            ("d:mean", "Stat->mean(list(S))", None, None),
+            ("d:median", "Stat->median(list(S))", None, None),
+            ("d:running", "do def t = 0.0; for x in S do t += x; end; t; end", None, None),
+        ]
+    out = [
+        ("d:reduce-set", "List->reduce(S, fn(a, b) a + '/' + b)", None, None),
+        ("d:reduce-values", "List->reduce(list(M), fn(a, b) b + '/' + a)", None, None),
+        ("d:string-concat", "do def t = ''; for x in S do t += x; end; t; end", None, None),
+    ]
+    for sd in RNG_SEEDS:
+        out.append((f"d:rng-{sd}", f"Random->set_seed({sd}); [" + ", ".join(_draw_src(d) for d in RNG_DRAWS) + "]", "@rng", sd))
+    for kind, src in RNG_KINDS.items():
+        out.append((f"d:rng-kind-{kind}", f"Random->set_seed(7); [{src} for i in range(4)]", None, None))
+    out.append(("d:rng-choices", "Random->set_seed(3); [Random->choice(S), Random->choices(S, 3), Random->sample(S, 3), "
+                                 "Random->choice(list(M))]", None, None))
+    out.append(("d:rng-reseed", "do def a = [Random->random(), Random->random(100)]; Random->set_seed(1); "
+                                "a == [Random->random(), Random->random(100)]; end", None, None))
+    return out
+
+
+def call_prelude(b, order):
+    lines = ["require " + "; require ".join(calls_mod.MODULES) + ";"]
+    if b.pool == "str":
+        lines.append("def mkS() <<" + ", ".join(f"'{KEYW[r - 1]}'" for r in order) + ">>;")
+        lines.append("def mkM() <<<" + ", ".join(f"'{KEYW[r - 1]}' => '{VALW[val_of(r) - 101]}'" for r in order) + ">>>;")
+    else:
+        pool = MIXED[b.pool]
+        lines.append("def mkS() <<" + ", ".join(pool[r][0] for r in order) + ">>;")
+        if b.pool == "decmag":              # decimals as values, too
+            n = len(pool)
+            lines.append("def mkM() <<<" + ", ".join(f"{pool[r][0]} => {pool[n - 1 - r][0]}" for r in order) + ">>>;")
+        else:
+            lines.append("def mkM() <<<" + ", ".join(f"{pool[r][0]} => '{b.words[r]}'" for r in order) + ">>>;")
+    return "\n".join(lines) + "\n"
+
+
+CALL_FRESH = "def S = mkS(); def M = mkM(); Random->set_seed(1);\n"
+
+
+def call_groups(rng, quick, funcs):
+    """One group per pool: the sweep (full for the string pool and the pool of mixed types, one-argument calls
+    for the decimals) plus the directed calls.  Runs: every hash seed on the ascending construction order, the
+    other orders and the legacy mode on a few."""
+    groups = []
+    for pool in CALL_POOLS:
+        b = make_batch("calls-" + pool, [], pool, rng, 3 if quick else 6, n=6 if pool == "str" else None)
+        sweep = calls_mod.sweep_calls(funcs, max_args=1 if pool == "decmag" else 3)
+        directed = directed_calls(pool)
+        cl = [(cid, src) for cid, src, _ in sweep] + [(cid, src) for cid, src, _, _ in directed]
+        names = [on for on, _ in b.orders]
+        if quick:
+            runs = [(names[0], sd, False) for sd in range(8)]
+            runs += [(on, 2 + 3 * i, False) for i, on in enumerate(names[1:])]
+            runs += [(names[0], 1, True), (names[1], 6, True)]
+        else:
+            runs = [(names[0], sd, False) for sd in range(32)]
+            runs += [(on, 4 * i + j, False) for i, on in enumerate(names[1:]) for j in range(4)]
+            runs += [(on, sd, True) for on in names[:2] for sd in range(4)]
+        groups.append({"gid": "calls-" + pool, "pool": pool, "batch": b,
+                       "prelude": {on: call_prelude(b, o) for on, o in b.orders}, "fresh": CALL_FRESH, "calls": cl,
+                       "runs": runs, "limit": 10,
+                       "fname": {cid: f for cid, _, f in sweep}, "directed": {d[0]: d for d in directed}})
+    return groups
+
+
+_NUM = re.compile(r"-?\d+(?:\.\d+)?(?:[eE][-+]?\d+)?")
+
+
+def call_trace_line(g, cid, outcome):
+    """the observation of a directed call as a line for Order_Trace, or None when it is not such an observation"""
+    _, src, prog, how = g["directed"][cid]
+    kind, text, printed = outcome
+    b = g["batch"]
+    if prog == "@rng":
+        if kind != "val":
+            return None
+        nums = _NUM.findall(text)
+        if len(nums) != len(RNG_DRAWS):
+            return None
+        obs = []
+        for d, x in zip(RNG_DRAWS, nums):
+            if d == (0, 0):
+                v = float(x) * 233280
+                obs.append(int(round(v)) if abs(v - round(v)) < 1e-6 else -1)
+            else:
+                obs.append(int(x) if re.fullmatch(r"-?\d{1,9}", x) else -1)
+        return {"prog": "@rng", "seed": how, "draws": [list(d) for d in RNG_DRAWS], "obs": obs, "elems": [], "n": 0}
+    if how == "sumtype" and b.rankable:
+        m = re.search(r"Cannot sum (\w+)", text) if kind == "err" else None
+        if not m or m.group(1) not in SUM_TYPES:
+            return None                      # not an enumeration (today sum(S) is "List required but got set")
+        # model: the numbers are the members up to 1, every other member is above; the error names the first of them
+        bad = sorted(b.tokens[r] for r in SUM_TYPES.values())
+        return {"prog": prog, "elems": [1] + [10 + e for e in bad], "obs": [10 + b.tokens[SUM_TYPES[m.group(1)]]], "n": 0}
+    return None
+
+
+def judge_calls(run, groups, results):
+    """Oracle 1 for every call; -> ({gid: {cid}} varying, extra trace lines [(line, gid, cid, outcome, run keys)], stats)"""
+    flagged = {}
+    extra = []
+    stats = {"calls": 0, "evaluations": 0, "varying_calls": 0, "not_judged_timeout": 0, "outcomes": {}}
+    for g in groups:
+        runs = results[g["gid"]]
+        varying, skipped, n = calls_mod.compare(g, runs)
+        stats["calls"] += len(g["calls"])
+        stats["evaluations"] += n
+        stats["varying_calls"] += len(varying)
+        stats["not_judged_timeout"] += len(skipped)
+        for cid in skipped[:5]:
+            run.drift("call-timed-out-not-judged", {"pool": g["pool"], "call": cid})
+        first = sorted(runs.items())[0][1]
+        for o in first[1].values():
+            stats["outcomes"][o[0]] = stats["outcomes"].get(o[0], 0) + 1
+        if first[0][0] != "val":
+            run.drift("call-prelude-failed", {"pool": g["pool"], "outcome": list(first[0])[:2]})
+        flagged[g["gid"]] = set(varying)
+        src_of = dict(g["calls"])
+        # one violation per function (sweep) / per directed call
+        by_key = {}
+        for cid in sorted(varying):
+            name = g["fname"].get(cid) or cid
+            by_key.setdefault(name, []).append(cid)
+        for name, cids in sorted(by_key.items()):
+            cid = cids[0]
+            legacy, distinct = varying[cid][0]
+            ex = sorted(distinct.items(), key=lambda kv: (-len(kv[1]), kv[1]))
+            x, y = ex[0], ex[1]
+            what = (f"varies: `{src_of.get(cid, cid)}` (pool {g['pool']}) {len(distinct)} different outcomes in "
+                    f"{sum(len(w) for w in distinct.values())} processes{' (legacy)' if legacy else ''}: order={x[1][0][0]} "
+                    f"PYTHONHASHSEED={x[1][0][1]} -> {_short_call(x[0])} but order={y[1][0][0]} PYTHONHASHSEED={y[1][0][1]} "
+                    f"-> {_short_call(y[0])}" + (f"; {len(cids) - 1} more calls of {name} vary" if len(cids) > 1 else ""))
+            case = {"kind": "call", "pool": g["pool"], "cid": cid, "src": src_of.get(cid, ""), "fresh": g["fresh"],
+                    "prelude": g["prelude"], "directed": list(g["directed"].get(cid, ())),
+                    "runs": [{"order": x[1][0][0], "seed": x[1][0][1], "legacy": legacy},
+                             {"order": y[1][0][0], "seed": y[1][0][1], "legacy": legacy}]}
+            run.violation(f"call:{g['pool']}:{name}", what, case)
+        # oracle 2 for the directed calls the model covers
+        for cid in g["directed"]:
+            distinct = {}
+            for rk, (pre, res) in sorted(runs.items()):
+                if cid in res:
+                    distinct.setdefault(calls_mod.norm(res[cid]), []).append(rk)
+            for o, where in distinct.items():
+                line = call_trace_line(g, cid, o)
+                if line is not None:
+                    line["n"] = len(where)
+                    extra.append((line, g, cid, o, where))
+    return flagged, extra, stats
+
+
+def _short_call(o):
+    kind, text, printed = o
+    s = (printed.strip() + " " if printed.strip() else "") + f"{kind}: {text.strip()}"
+    s = s.replace("\n", " | ")
+    return repr(s[:200] + ("..." if len(s) > 200 else ""))
+
+
+def report_bad_calls(run, bad_extra):
+    """a directed call whose observation is not the model's (after validation by Order_Trace)"""
+    for (line, g, cid, o, where), bd in bad_extra:
+        if line["prog"] == "@rng":
+            # the statement fixes no generator: numbers that differ from the model's are a difference of the model
+            run.drift("seeded-numbers-differ-from-the-generator-of-the-model",
+                      {"seed": line["seed"], "printed": line["obs"], "model": bd["want"]})
+            continue
+        src = dict(g["calls"]).get(cid, cid)
+        what = (f"unsorted: `{src}` (pool {g['pool']}) observation {line['obs']} is not what the sorted enumeration gives "
+                f"{bd['want']} (program {line['prog']}): order={where[0][0]} PYTHONHASHSEED={where[0][1]} -> {_short_call(o)}")
+        case = {"kind": "call", "pool": g["pool"], "cid": cid, "src": src, "fresh": g["fresh"], "prelude": g["prelude"],
+                "directed": list(g["directed"].get(cid, ())),
+                "runs": [{"order": where[0][0], "seed": where[0][1], "legacy": where[0][2]}]}
+        run.violation(f"call:{g['pool']}:{cid}", what, case)
+
+
+
 def run(run):
     quick = run.tier == "quick"
     rng = random.Random(run.seed)
@@ -985,23 +1209,34 @@ def run(run):
     norders = 3 if quick else 6
     reps = 1 if quick else 3           # repetitions with other element subsets
     # the three model runs that do not depend on the observations go on beside the interpreter processes
-    tlc_pool = ThreadPoolExecutor(max_workers=3)
+    tlc_pool = ThreadPoolExecutor(max_workers=6)
     f_spec = tlc_pool.submit(run_tlc, "Order", "Order", coverage=True, timeout=1800, workers=8)
-    f_raw = tlc_pool.submit(run_tlc, "Order", "Order_allraw", coverage=False, timeout=1800, workers=4)
-    f_render = tlc_pool.submit(run_tlc, "Order", "Order_byrender", coverage=False, timeout=1800, workers=4)
+    f_raw = tlc_pool.submit(run_tlc, "Order", "Order_allraw", coverage=False, timeout=1800, workers=3)
+    f_render = tlc_pool.submit(run_tlc, "Order", "Order_byrender", coverage=False, timeout=1800, workers=3)
+    f_fold = tlc_pool.submit(run_tlc, "Order", "Order_byfold", coverage=False, timeout=1800, workers=3)
+    f_rng = tlc_pool.submit(run_tlc, "Order_Rng", "Order_Rng", coverage=True, timeout=1800, workers=2)
     ts = templates()
     batches = make_batches(ts, rng, norders, 6, reps)
+    cgroups = call_groups(rng, quick, calls_mod.functions_of_tree())
+    f_calls = tlc_pool.submit(calls_mod.execute, cgroups, 8)          # the driver processes run beside the scripts
     try:
         obs, owner, nproc, cut = observe(batches, seeds, legacy_seeds)
+        call_results, ncallproc = f_calls.result()
         progs = tlc_programs(run, f_spec.result())
-        res_raw, res_render = f_raw.result(), f_render.result()
+        res_raw, res_render, res_fold, res_rng = f_raw.result(), f_render.result(), f_fold.result(), f_rng.result()
     finally:
         tlc_pool.shutdown(wait=True)
     for t in ts:
         if t.prog is not None and t.prog not in progs:
             raise MachineryError(f"template {t.tid} names program {t.prog} that OrderOps.tla does not define")
-    varying, unsorted, ntrace = judge(run, obs, owner)
+    call_flagged, extra, call_stats = judge_calls(run, cgroups, call_results)
+    for ex in extra:
+        if ex[0]["prog"] != "@rng" and ex[0]["prog"] not in progs:
+            raise MachineryError(f"call {ex[2]} names program {ex[0]['prog']} that OrderOps.tla does not define")
+    varying, unsorted, ntrace, bad_extra = judge(run, obs, owner, extra)
+    report_bad_calls(run, bad_extra)
     flagged = set(varying) | set(unsorted)
+    sweep_str = call_flagged.get("calls-str", set())
 
     # ---- the Site table, derived from what was observed: a site is raw iff a direct template over plain
     # members (strings) was flagged; the relation is "render" iff a site that sorts plain members shows the
@@ -1012,6 +1247,11 @@ def run(run):
     for t in ts:
         if t.site:
             (direct_alike if t.pool in ALIKE else direct).setdefault(t.site, []).append(t.tid)
+    near_at = {}                     # site -> templates over near-duplicate strings that go through it
+    for t in ts:
+        if t.pool in NEAR and t.prog in progs:
+            for st in progs[t.prog]["sites"]:
+                near_at.setdefault(st, []).append(t.tid)
     table = {}
     unobservable = []
     for s in sites:
@@ -1020,18 +1260,26 @@ def run(run):
         else:
             table[s] = "raw"
             unobservable.append(s)
+    # natives handed the container itself: also every call of the sweep over the string pool
+    if any(re.search(r"\bS\b", c) for c in sweep_str if not c.startswith("d:")):
+        table["native.set"] = "raw"
+    if any(re.search(r"\bM\b", c) for c in sweep_str if not c.startswith("d:")):
+        table["native.map"] = "raw"
     ties_leak_at = sorted(s for s in sites if table[s] == "sorted"
                           and any(tid in flagged for tid in direct_alike.get(s, [])))
     table["relation"] = "render" if ties_leak_at else "total"
+    folds_leak_at = sorted(s for s in sites if table[s] == "sorted" and any(tid in flagged for tid in near_at.get(s, [])))
+    table["strings"] = "folded" if folds_leak_at else "exact"
     predicted = tlc_predict(run, table, "Order: Site table derived from the observations; which programs can vary")
     seen_by_prog = {}
     for t in ts:
-        if t.prog is not None and (t.pool == "str" or t.pool in ALIKE):
-            seen_by_prog.setdefault((t.prog, "alike" if t.pool in ALIKE else "plain"), []).append(t.tid in flagged)
+        if t.prog is not None and (t.pool == "str" or t.pool in ALIKE or t.pool in NEAR):
+            cls = "alike" if t.pool in ALIKE else "near" if t.pool in NEAR else "plain"
+            seen_by_prog.setdefault((t.prog, cls), []).append(t.tid in flagged)
     agree = 0
     for (pid, cls), flags in sorted(seen_by_prog.items()):
-        # a collection of alike members also shows whatever plain collections show
-        says = pid in predicted[cls] or (cls == "alike" and pid in predicted["plain"])
+        # a collection of alike members (of near-duplicates) also shows whatever plain collections show
+        says = pid in predicted[cls] or (cls != "plain" and pid in predicted["plain"])
         if says == any(flags):
             agree += 1
         else:
@@ -1048,6 +1296,32 @@ def run(run):
     if byrender["plain"]:
         raise MachineryError("Order.tla: a collection without two alike members varies although every site sorts")
     tie_masked = sorted(p for p in progs if p not in byrender["alike"])
+    # ... and when strings are compared after folding
+    byfold = vary_of(run, res_fold, "Order: every site sorted, strings compared after folding; where do near-duplicates leak")
+    if byfold["plain"] or byfold["alike"]:
+        raise MachineryError("Order.tla: a collection without two near-duplicate strings varies although every site sorts")
+    fold_masked = sorted(p for p in progs if p not in byfold["near"])
+    # ---- the seeded generator: the table Source (kind of draw -> "seeded" | "host"), derived like the sites
+    run.add_tlc(res_rng, "Order_Rng: every kind of draw from the module-level seed; Determinism after set_seed")
+    if res_rng.records("RNGVARY"):
+        raise MachineryError("Order_Rng.tla: numbers vary although every draw is seeded")
+    source = {k: ("host" if f"d:rng-kind-{k}" in sweep_str else "seeded") for k in RNG_KINDS}
+    rng_seen = sorted(c for c in sweep_str if c.startswith("d:rng")) + sorted(
+        t for t in flagged if t.startswith("random-"))
+    if "host" in source.values():
+        d = tempfile.mkdtemp(prefix="c12-src-")
+        try:
+            with open(os.path.join(d, "source.json"), "w") as f:
+                json.dump(source, f)
+            res_src = run_tlc("Order_Rng", "Order_Rng_observed", env={"SOURCE_FILE": os.path.join(d, "source.json")},
+                              coverage=False, timeout=1800, workers=2)
+        finally:
+            shutil.rmtree(d, ignore_errors=True)
+        run.add_tlc(res_src, "Order_Rng: Source table derived from the observations; which sequences vary")
+        run.sample({"rng_source_observed": source, "model_counterexamples": res_src.records("RNGVARY")[:3]})
+    elif rng_seen:
+        run.drift("model-prediction-differs", {"rng": "every kind of draw looks seeded, but seeded programs vary",
+                                               "observed_varying": rng_seen[:5]})
     for tid in cut:
         run.drift("template-cut-off-by-crash-of-an-earlier-one-rerun-alone", tid)
     for p in MIXED:
@@ -1070,19 +1344,29 @@ def run(run):
     run.sample({"site_table_observed": table, "assumed_raw_because_not_directly_observable": unobservable})
     run.sample({"programs_where_a_raw_order_is_masked": masked,
                 "programs_where_ties_between_alike_members_are_masked": tie_masked,
-                "sites_where_ties_leak": ties_leak_at})
+                "programs_where_ties_between_near_duplicate_strings_are_masked": fold_masked,
+                "sites_where_ties_leak": ties_leak_at, "sites_where_near_duplicates_leak": folds_leak_at})
+    g0 = cgroups[1]
+    r0 = sorted(call_results[g0["gid"]].items())[0]
+    run.sample({"call_channel": {"prelude": g0["prelude"][r0[0][0]], "fresh": g0["fresh"],
+                                 "calls": [[c, list(r0[1][1].get(c, ()))] for c in
+                                           ("sum(S)", "d:sum-list-of-set", "any(S, fn(x) do println([x]); FALSE; end)")]}})
     if predicted["plain"] or predicted["alike"]:
         run.sample({"model_counterexamples_for_observed_table":
                     (list(predicted["plain"].values()) + list(predicted["alike"].values()))[:4]})
     covered = sorted({t.prog for t in ts if t.prog})
     run.cov["traces_validated_against_impl"] = ntrace
-    run.cov["evaluations"] = sum(len(r) for r in obs.values())
-    run.cov["distinct_nontrivial"] = len({(tid, bid) for tid, bid, _ in obs})
-    run.cov["rule"] = ("distinct_nontrivial = template instances (enumeration path x element subset); evaluations = "
-                       "template executions (instance x construction order x hash seed x mode); traces = distinct "
-                       "observations of model-covered templates checked by Order_Trace")
+    run.cov["evaluations"] = sum(len(r) for r in obs.values()) + call_stats["evaluations"]
+    run.cov["distinct_nontrivial"] = len({(tid, bid) for tid, bid, _ in obs}) + call_stats["calls"]
+    run.cov["rule"] = ("distinct_nontrivial = template instances (enumeration path x element subset) + calls of the "
+                       "call channel (function x argument shape x pool); evaluations = template executions (instance x "
+                       "construction order x hash seed x mode) + call executions; traces = distinct observations of "
+                       "model-covered templates and directed calls checked by Order_Trace")
     run.cov["exhaustive"] = False
-    run.cov["processes"] = nproc
+    run.cov["processes"] = nproc + ncallproc
+    run.cov["call_channel"] = dict(call_stats, processes=ncallproc, functions=len({f for g in cgroups for f in g["fname"].values()}),
+                                   runs_per_pool=len(cgroups[0]["runs"]))
+    run.cov["rng_source"] = source
     run.cov["templates"] = len(ts)
     run.cov["model_programs"] = len(progs)
     run.cov["model_programs_with_template"] = len(covered)
@@ -1098,7 +1382,14 @@ def run(run):
         "sorted order of mixed scalars = the language's own `<`; pools on which `<` is not a strict total order are "
         "checked for identical outcomes only",
         "objects keep insertion order by design; only object(map) (an enumeration of a map) is in scope",
-        "random numbers: only set_seed-seeded sequences are compared (the statement fixes the random seed)",
+        "random numbers: only set_seed-seeded sequences are compared (the statement fixes the random seed); that they are the "
+        "numbers of the congruential generator of OrderOps is checked, but a difference is drift, not a violation",
+        "the call channel drives the interpreter through its public API (Interpreter(secure, legacy), setStandardOutput, "
+        "interpret) and formats an error as ckl.run does (value, msg, pos, stacktrace)",
+        "functions whose result is the clock or the machine (now, timestamp, get_env, which, checkerlang_version/platform) "
+        "are not in the sweep; a call that exceeds 10 s in some process is not judged (drift)",
+        "pools whose members the language's `==` identifies or whose `<` is not a strict total order are compared across "
+        "runs only (no ranks)",
         "members that render alike: the expected order is the creation order of functions and streams (they are "
         "created in rank order before the set is built, in every construction order) and the order of the hidden "
         "member for objects; the oracle proper is that all runs agree",
